@@ -165,8 +165,10 @@ func (m *vMon) ReassemblyComplete(g []*auparse.AuditMessage) {
 		nowK := vClockCount() - 1
 		if nowK >= 0 {
 			vAssert(vOr(!forTime, !vBefore(vClockSec(nowK), vClockNsec(nowK), es, en)), "C19/flushed-before-timeout")
+			vAssert(vOr(!forTime, !vBefore(vClockSec(nowK), vClockNsec(nowK), es, en)), "C10/delivered-without-cause") // the third cause, seen from C10
 		} else {
 			vAssert(!forTime, "C19/flushed-before-timeout")
+			vAssert(!forTime, "C10/delivered-without-cause")
 		}
 	}
 	in.delivered = true
